@@ -177,6 +177,13 @@ def _comp_uvw(comp, c, x, y):
     return float(np.asarray(u)[0]), float(np.asarray(v)[0]), float(np.asarray(w)[0])
 
 
+def skin_y(f, case):
+    """y of a skin force: a fraction of the bay width, or exactly one of the skin-cut positions (foot of a stiffener)"""
+    if f.get('ycut') is not None:
+        return case['cuts'][f['ycut'] % len(case['cuts'])]
+    return f['y'] * case['b']
+
+
 def check_bay(case, ctx):
     name = 'fext[bay]'
     with package(name + '.build'):
@@ -188,7 +195,7 @@ def check_bay(case, ctx):
     ctx.ok(size == lay['size'], name + '.size', 'get_size %d != sum of components %d' % (size, lay['size']))
     work_terms = []
     for f in case['forces_skin']:
-        spb.forces_skin.append([f['x'] * spb.a, f['y'] * spb.b, f['fx'], f['fy'], f['fz']])
+        spb.forces_skin.append([f['x'] * spb.a, skin_y(f, case), f['fx'], f['fy'], f['fz']])
     comp_forces = []
     i2 = it = 0
     for s, sc in zip(stiffs, case['stiffeners']):
@@ -207,6 +214,8 @@ def check_bay(case, ctx):
                 comp_forces.append((('tstiff2d', idx, 'base'), s.base, f))
     ctx.nontrivial = bool(case['forces_skin']) or len(comp_forces) >= 1
     ctx.label('stiffeners:%d' % len(stiffs), 'skin-forces:%d' % len(case['forces_skin']), 'comp-forces:%d' % len(comp_forces),
+              'force-on-interior-cut' if any(f.get('ycut') is not None and 0 < f['ycut'] % len(case['cuts']) < len(case['cuts']) - 1
+                                             for f in case['forces_skin']) else 'forces-off-cuts',
               *['kind:' + sc['kind'] for sc in case['stiffeners']])
     with package(name):
         fext = np.asarray(spb.calc_fext(silent=True))
@@ -217,7 +226,7 @@ def check_bay(case, ctx):
     for f in case['forces_skin']:
         with package(name + '.uvw_skin'):
             with quiet():
-                u, v, w, _, _ = spb.uvw_skin(dc, xs=np.array([f['x'] * spb.a]), ys=np.array([f['y'] * spb.b]))
+                u, v, w, _, _ = spb.uvw_skin(dc, xs=np.array([f['x'] * spb.a]), ys=np.array([skin_y(f, case)]))
         comps = (f['fx'] * float(u[0]), f['fy'] * float(v[0]), f['fz'] * float(w[0]))
         work += sum(comps)
         wabs += sum(abs(x) for x in comps)
@@ -385,6 +394,8 @@ def bay_case(draw, max_stiff=3, kinds=('blade1d', 'blade2d', 'tstiff2d'), curved
 def _bay_strategy(draw, tier='quick'):
     case = draw(bay_case())
     case['forces_skin'] = draw(st.lists(force(cte=True), min_size=0, max_size=3))
+    for f in case['forces_skin']:
+        f['ycut'] = draw(st.one_of(st.none(), st.integers(0, 5)))
     case['dseed'] = draw(st.integers(0, 2 ** 20))
     return case
 
